@@ -369,7 +369,9 @@ func c03Surrogates(c *Ctx, g *load.G) {
 			fs := ivset{}
 			known := true
 			for _, d := range splitTop(f, "||") {
-				d = strings.TrimSuffix(strings.TrimPrefix(d, "("), ")")
+				if strings.HasPrefix(d, "(") && strings.HasSuffix(d, ")") && wholeCall("f"+d) {
+					d = d[1 : len(d)-1]
+				}
 				ds := ivset{univ}
 				for _, a := range splitTop(d, "&&") {
 					a = strings.ReplaceAll(strings.ReplaceAll(a, "rune("+v+")", v), "int64("+v+")", v)
@@ -382,6 +384,10 @@ func c03Surrogates(c *Ctx, g *load.G) {
 						// up to eight hex digits always fit 32 bits
 					case strings.HasPrefix(a, "res1(strconv.Parse") && strings.HasSuffix(a, "!=nil"):
 						ds = ivset{}
+					case a == "utf16.IsSurrogate("+v+")":
+						ds = ds.intersect(ivset{{0xD800, 0xDFFF}})
+					case a == "!utf16.IsSurrogate("+v+")":
+						ds = ds.intersect(ivset{{0xD800, 0xDFFF}}.complement(univ))
 					case a == "utf8.ValidRune("+v+")":
 						ds = ds.intersect(valid)
 					case a == "!utf8.ValidRune("+v+")":
